@@ -15,7 +15,9 @@ TECHNIQUE = ('class-graph / table extraction (operator -> node class -> overflow
              'generator methods (bit protocol, fold scope as a small abstract interpretation of ConsolidateOverflowCheck, partial '
              'evaluation of overflow_check_binop over the complete finite domain op x const_rhs), Tempita read sets vs context keys, '
              'helper-name agreement with #if coverage, clang as parser for the Binop dispatch and as constant evaluator for the '
-             'MIN / -1 guard (compile-fail witness); visitor-dispatch resolution + summary substitution of delegating handlers for the fold barrier')
+             'MIN / -1 guard (compile-fail witness); visitor-dispatch resolution + summary substitution of delegating handlers for the fold barrier; '
+             'bounded model check of the Overflow.c helpers and decision table of the Binop dispatcher with the checker\'s own C interpreter (rules/pC03.py, model machines); '
+             'typed truth table of the emitted MIN / -1 guard (shared with C03-GUARD)')
 DECIDES = ('(OPS) each of + - * << is built by a NumBinopNode subclass whose overflow_op_names contains it and whose effective '
            'analyse_c_operation reads directives["overflowcheck"]; each of + - * << / // and unary - has code that raises OverflowError reachable '
            'from its generate_evaluation_code; (ENABLE) where overflow_check is switched on the node becomes a temp, gets its helper name from '
@@ -33,8 +35,14 @@ DECIDES = ('(OPS) each of + - * << is built by a NumBinopNode subclass whose ove
            '(W1) the constant part of the MIN / -1 guard holds for every signed result type (int, long, long long) on the analysis target; '
            '(BARRIER) the ConsolidateOverflowCheck handler that the visitor dispatch selects for every node class built for a trapping C operator (/ // %: DivNode, ModNode and subclasses) '
            'visits the operands only with self.overflow_bit_node cleared on EVERY path, delegations self.visit_X(node) / super().visit_X(node) resolved recursively (rules/sC04.py): '
-           'no node flag (zerodivision_check, cdivision) may re-open the fold, because the C division itself traps on a divisor that wrapped to 0.')
-NOT_DECIDED = ('arithmetic correctness of the C helpers (bounds, widening); that ConsolidateOverflowCheck *restores* the saved bit node after a '
+           'no node flag (zerodivision_check, cdivision) may re-open the fold, because the C division itself traps on a divisor that wrapped to 0; '
+           '(ARITH) the helpers __Pyx_{add,sub,mul}[_const]_<T>_checking_overflow (both preprocessor arms, every sizeof arm, every answer of __Pyx_is_constant) and __Pyx_lshift[_const]_<T>_checking_overflow '
+           'set the bit for every operand pair of a 4-bit model type whose exact result does not fit, return the exact result otherwise and execute no undefined C operation '
+           '(bounded model check by rules/pC03.py; parametricity premise: no literal but 0, 1, 2, 8); (DISPATCH table) every type of at least int rank reaches a checked helper of its width and signedness on ILP32/LP64/LLP64; '
+           '(SIGNKEY) LeftShift is instantiated with SIGNED truthy exactly for signed types; (MINGUARD) where the compile-time part of the emitted MIN / -1 guard holds the guard intercepts (MIN, -1), '
+           'i.e. the divisor is compared with -1 and the negation test is applied to the dividend.')
+NOT_DECIDED = ('the transfer of ARITH from the 4-bit model width (fractional sizeof) to the production widths, which rests on the syntactic parametricity premise; the unused __Pyx_div_*_checking_overflow helpers '
+               '(`div` is not in overflow_op_names); that ConsolidateOverflowCheck *restores* the saved bit node after a '
                'non-arithmetic node (dropping the restore only loses folding, the property still holds, so it is deliberately not demanded: '
                'DESIGN clause V3 is implemented as "cleared", not "restored"); generic G2 for the bit temp is replaced by the path-sensitive BIT rule; '
                '% (not in the property\'s operator list) has no MIN % -1 rule; overflowcheck under cdivision=True.')
@@ -688,6 +696,40 @@ def _bit_protocol(fn):
     return out, allocs
 
 
+def _local_defs(fn):
+    """name -> the single expression assigned to it in fn (plain and pairwise tuple assignments); names assigned more than once are dropped"""
+    env, multi = {}, set()
+    for n in walk_no_nested(fn):
+        if not isinstance(n, ast.Assign):
+            continue
+        for t in n.targets:
+            pairs = []
+            if isinstance(t, ast.Name):
+                pairs = [(t.id, n.value)]
+            elif isinstance(t, (ast.Tuple, ast.List)) and isinstance(n.value, (ast.Tuple, ast.List)) and len(t.elts) == len(n.value.elts):
+                pairs = [(x.id, v) for x, v in zip(t.elts, n.value.elts) if isinstance(x, ast.Name)]
+            for k, v in pairs:
+                if k in env:
+                    multi.add(k)
+                env[k] = v
+    return {k: v for k, v in env.items() if k not in multi}
+
+
+def _resolved_src(fn, node, depth=0):
+    """source text of node with single-assignment locals replaced by their definitions"""
+    if node is None:
+        return ''
+    env = _local_defs(fn)
+    import copy
+
+    class R(ast.NodeTransformer):
+        def visit_Name(self, n):
+            if isinstance(n.ctx, ast.Load) and n.id in env and depth < 3:
+                return ast.parse(_resolved_src(fn, env[n.id], depth + 1), mode='eval').body
+            return n
+    return node_src(R().visit(copy.deepcopy(node)), 120)
+
+
 def _result_code_check(fn):
     """Every return of calculate_result_code is the checked helper call unless overflow_bit_node is known to be None."""
     def bn(t):
@@ -732,7 +774,7 @@ def _result_code_check(fn):
                 text = re.sub(r'\s+', '', t[0])
                 ph = t[1]
                 if re.fullmatch('%s\\(%s,%s,&%s\\)' % ((PLACEHOLDER,) * 4), text) and len(ph) == 4:
-                    srcs = [node_src(p, 80) if p is not None else '' for p in ph]
+                    srcs = [_resolved_src(fn, p) for p in ph]
                     if 'func' not in srcs[0]:
                         why = 'calls %s instead of the helper stored in self.func' % srcs[0]
                     elif not ('operand1' in srcs[1] and 'operand2' in srcs[2]):
@@ -1145,7 +1187,7 @@ def _check_arms(arms, op='add'):
 
 def rule_dispatch(ctx):
     cat = ctx.cat
-    r = Rule('C04-DISPATCH', 'each sizeof(T) == sizeof(X) arm of Overflow.c::Binop calls the checked helper of X, unsigned arms under __PYX_IS_UNSIGNED', floor=5)
+    r = Rule('C04-DISPATCH', 'each sizeof(T) == sizeof(X) arm of Overflow.c::Binop calls the checked helper of X, unsigned arms under __PYX_IS_UNSIGNED; decision table: every type of at least int rank reaches a checked helper of its own width and signedness (ILP32, LP64, LLP64)', floor=15)
     sec = P.section_texts(cat, OVF, 'Binop').get('impl')
     if sec is None:
         raise AnalysisError('Overflow.c::Binop has no implementation part')
@@ -1157,6 +1199,13 @@ def rule_dispatch(ctx):
         raise AnalysisError('Binop template no longer branches on __PYX_IS_UNSIGNED')
     for x, msg in _check_arms(arms):
         r.violate('Binop:%s' % x.replace(' ', '_'), 'Cython/Utility/' + OVF, sec.line, 'Overflow.c::Binop: ' + msg)
+    # decision table of the whole dispatcher (also the arm in front of the sizeof == chain): rules/sC04.dispatch_table
+    from ..rules import sC04
+    rows, probs = sC04.dispatch_table(ctx)
+    for mname, tdesc, called in rows:
+        r.inst('Binop:table:%s:%s' % (mname, tdesc.replace(' ', '_')), sample='%s, %s -> %s' % (mname, tdesc, called))
+    for k, msg in probs:
+        r.violate('Binop:table:%s' % k, 'Cython/Utility/' + OVF, sec.line, 'Overflow.c::Binop: ' + msg)
     pc = ('static inline __pyx_T __Pyx_add_T_checking_overflow(__pyx_T a, __pyx_T b, int *o) {\n if (__PYX_IS_UNSIGNED(__pyx_T)) {\n'
           '  if (sizeof(__pyx_T) == sizeof(unsigned long)) { return (__pyx_T) __Pyx_add_unsigned_int_checking_overflow(a, b, o); } else { return 0; }\n'
           ' } else {\n  if (sizeof(__pyx_T) == sizeof(unsigned int)) { return (__pyx_T) __Pyx_add_unsigned_int_checking_overflow(a, b, o); } else { return 0; }\n }\n}\n')
@@ -1296,10 +1345,28 @@ def _dscope(ctx):
     return dscope.rule_dscope(ctx)
 
 
-def run(ctx):
+def rule_signed_key(ctx):
     from ..rules import sC04
-    return [rule_ops(ctx), rule_fold(ctx), rule_pure(ctx), rule_enable(ctx), rule_bit(ctx), rule_p1(ctx), rule_name(ctx),
-            rule_dispatch(ctx), rule_w1(ctx), rule_i5(ctx), _dscope(ctx), sC04.rule_barrier(ctx, _fold_analyse)]
+    r = Rule('C04-SIGNKEY', 'Overflow.c::LeftShift is instantiated with a SIGNED value that is truthy exactly for signed types', floor=2)
+    n, probs = sC04.signed_key_problems(ctx)
+    for i in range(n):
+        r.inst('LeftShift:SIGNED#%d' % i, sample='LeftShift instantiation %d' % i)
+    for key, rel, line, msg in probs:
+        if msg is None:
+            r.info('%s: the SIGNED expression is not a function of self.signed the rule can evaluate; not decided' % key)
+        else:
+            r.violate(key, rel, line, msg)
+    import ast as _ast
+    from ..rules import pC02 as _P2
+    pcv = [bool(_P2.Ev(subst={'self.signed': sv}).ev(_ast.parse('not self.signed', mode='eval').body)) for sv in (0, 1, 2)]
+    r.positive_control(pcv == [True, False, False], 'SIGNED = not self.signed')
+    return r
+
+
+def run(ctx):
+    from ..rules import sC04, sC03
+    return [rule_signed_key(ctx), sC03.rule_guard(ctx, floor=2, direction='C04'), rule_ops(ctx), rule_fold(ctx), rule_pure(ctx), rule_enable(ctx), rule_bit(ctx), rule_p1(ctx), rule_name(ctx),
+            rule_dispatch(ctx), rule_w1(ctx), rule_i5(ctx), _dscope(ctx), sC04.rule_barrier(ctx, _fold_analyse), sC04.rule_arith(ctx)]
 
 
 MUTATIONS = [
@@ -1338,6 +1405,8 @@ MUTATIONS = [
     ('Cython/Compiler/Optimize.py', 'visit_DivNode: `if node.cdivision: return self.visit_NumBinopNode(node)` before the barrier', 'C04-BARRIER'),
     ('Cython/Compiler/Optimize.py', 'new visit_ModNode delegating to visit_NumBinopNode', 'C04-BARRIER (ModNode only)'),
     ('Cython/Compiler/Optimize.py', 'visit_DivNode: `return super().visit_Node(node)` (the base class handler does not clear the bit node)', 'C04-BARRIER'),
+    ('mutants/C04/*', '18 + 6 brainstormed breaking edits (widening arm `<=`, add/sub sign formulas exchanged, mul_const arms dropped, HALF_MAX / MIN macros, LeftShift bounds, dispatcher arm `<=` / negated, '
+                      'SIGNED key inverted, bit zeroed late, MIN / -1 guard operands, unsigned sub bound, ...) and 10 behaviour-preserving rewrites; see meta.json of each', 'C04-ARITH / C04-DISPATCH / C04-SIGNKEY / C04-MINGUARD'),
     # behaviour-preserving edits, all silent (no finding added or removed)
     ('Cython/Compiler/Optimize.py', 'visit_DivNode inlines save / clear / visitchildren / restore; visit_DivNode folds only `if node.type.is_float` (result through a local); '
                                     'visit_DivNode -> visit_fold_barrier -> visit_Node chain; visit_Node saves and clears unconditionally', 'silent'),
